@@ -144,7 +144,9 @@ class Synth:
                 notes.append("mdonly")
             elif var == 4:
                 closure = not closure
-                ck = [ChecksumType.CRC_32, ChecksumType.CRC_32C, ChecksumType.NULL_CHECKSUM, ChecksumType.MODULAR][t.choose(4, "md ck")]
+                # incl. a well-formed checksum type the native filestore does not implement
+                ck = [ChecksumType.CRC_32, ChecksumType.CRC_32C, ChecksumType.NULL_CHECKSUM, ChecksumType.MODULAR,
+                      ChecksumType.CRC_32_PROXIMITY_1][t.choose(5, "md ck")]
                 notes.append("ck/closure")
             pdu = MetadataPdu(conf, MetadataParams(closure, ck, size, src, dst))
         elif kind == "FD":
